@@ -9,6 +9,7 @@ pub struct ExDateTime<Tz: chrono::TimeZone>(chrono::DateTime<Tz>);
 #[verifier::external_type_specification]
 #[verifier::external_body]
 pub struct ExLocal(chrono::Local);
+//@ include prelude/combinators.rs
 pub uninterp spec fn clock_now() -> chrono::DateTime<chrono::Local>;
 pub assume_specification[ chrono::Local::now ]() -> (r: chrono::DateTime<chrono::Local>)
     ensures r == clock_now();
@@ -18,9 +19,22 @@ pub assume_specification<T, F: FnOnce() -> T>[ Option::<T>::get_or_insert_with ]
         (*old(o)) is Some ==> *final(o) == *old(o) && *r == (*old(o))->Some_0,
         (*old(o)) is None ==> (*final(o)) is Some && f.ensures((), (*final(o))->Some_0) && *r == (*final(o))->Some_0;
 
+#[verifier::external_type_specification]
+#[verifier::external_body]
+pub struct ExUtc(chrono::Utc);
+/// the UTC form of a local time stamp (`From<DateTime<Local>> for DateTime<Utc>`): a function of the time stamp
+pub uninterp spec fn utc_of(d: chrono::DateTime<chrono::Local>) -> chrono::DateTime<chrono::Utc>;
+pub broadcast axiom fn ax_into_utc(d: chrono::DateTime<chrono::Local>, r: chrono::DateTime<chrono::Utc>)
+    ensures #[trigger] call_ensures(<chrono::DateTime<chrono::Local> as Into<chrono::DateTime<chrono::Utc>>>::into, (d,), r) ==> r == utc_of(d);
+/// a second clock (not used by the code as it is): unrelated to the stored time stamp
+pub uninterp spec fn utc_clock_now() -> chrono::DateTime<chrono::Utc>;
+pub assume_specification[ chrono::Utc::now ]() -> (r: chrono::DateTime<chrono::Utc>)
+    ensures r == utc_clock_now();
+
 pub mod deferred_now {
     use super::*;
-    use chrono::{DateTime, Local};
+    use chrono::{DateTime, Local, Utc};
+    broadcast use ax_into_utc;
     //@ item src/deferred_now.rs struct DeferredNow
     //@   dropattr #[derive
     impl<'a> DeferredNow {
@@ -34,6 +48,11 @@ pub mod deferred_now {
     //@   props C20
     //@   ens[DeferredNow::now.post.first] old(self).stored() is None ==> final(self).stored() == Some(clock_now()) && *r == clock_now()
     //@   ens[DeferredNow::now.post.later] old(self).stored() is Some ==> final(self).stored() == old(self).stored() && *r == old(self).stored()->Some_0
+    //@ fn src/deferred_now.rs impl<'a> DeferredNow / fn now_utc_owned
+    //@   ret r
+    //@   props C20
+    //@   ens[DeferredNow::now_utc_owned.post.first] old(self).stored() is None ==> final(self).stored() == Some(clock_now()) && r == utc_of(clock_now())
+    //@   ens[DeferredNow::now_utc_owned.post.later] old(self).stored() is Some ==> final(self).stored() == old(self).stored() && r == utc_of(old(self).stored()->Some_0)
     }
 }
 }
